@@ -1,6 +1,6 @@
 """C18 — card identity is a fixed function of the data the terminal reports."""
 from mirlite import callee, ty_str
-from client import Fn, FEIG, STREAM, NEXT, variant_switches, follow, is_call, mentions_path
+from client import emptiness_switches, option_switches, Fn, FEIG, STREAM, NEXT, variant_switches, follow, is_call, mentions_path
 from expr import show, walk, strip_ref
 import rules_c20
 
@@ -43,42 +43,43 @@ def run(ctx, chk):
     def subs_of_tlv(e):
         return any(x[0] in ("path", "proj") and x[2][-1:] == ("subs",) for x in walk(e)) or \
             any(x[0] == "path" and x[1] == "tlv" and x[2] == ("subs",) for x in walk(e))
-    emp = f.bool_switches(lambda e: (is_call(e, "Vec::<T, A>::is_empty") or is_call(e, "<impl [T]>::is_empty")) and subs_of_tlv(e))
-    neg = f.bool_switches(lambda e: e[0] == "un" and e[1] == "Not" and (is_call(e[2], "Vec::<T, A>::is_empty")) and subs_of_tlv(e[2]))
-    tests = [(bb, tt, ft) for bb, e, tt, ft in emp] + [(bb, ft, tt) for bb, e, tt, ft in neg]
+    # "the terminal lists a payment application": any spelling of the non-emptiness test of tlv.subs -
+    # is_empty()/len() comparisons, or Some/None of subs.first() / subs.get(0)
+    def first_of_subs(x):
+        x = strip_ref(x)
+        if x[0] == "call" and x[1].endswith("<impl [T]>::first") and subs_of_tlv(x):
+            return True
+        return x[0] == "call" and x[1].endswith("<impl [T]>::get") and len(x[2]) == 2 and x[2][1] == ("const", 0) and subs_of_tlv(x)
+    tests = [(bb, et, nt) for bb, e, et, nt in emptiness_switches(
+        f, subs_of_tlv, len_suffixes=("Vec::<T, A>::len", "<impl [T]>::len"),
+        empty_suffixes=("Vec::<T, A>::is_empty", "<impl [T]>::is_empty"))]
+    first_tests = option_switches(f, first_of_subs)
+    tests += [(bb, none_t, some_t) for bb, x, some_t, none_t in first_tests]
     if not chk.require(len(tests) == 1, "C18/listed-apps-test", "read_card",
-                       "expected one is_empty() test of the reported application list, found %d" % len(tests), "", f.sp()):
+                       "expected one emptiness test of the reported application list, found %d" % len(tests), "", f.sp()):
         return
     tbb, empty_t, nonempty_t = tests[0]
     for bb, st in sites["Bank"]:
         chk.require(f.edge_dominates((tbb, nonempty_t), bb), "C18/bank-needs-application", "CardInfo::Bank",
                     "a bank card is reported on a path where no payment application was listed", "under !subs.is_empty()", f.sp(bb))
-    some = f.bool_switches(lambda e: is_call(e, "Option::<T>::is_some") and
-                           any(x[0] in ("path", "proj") and "application_id" in x[2] for x in walk(e)))
+    some = option_switches(f, lambda x: any(y[0] in ("path", "proj") and "application_id" in y[2] for y in walk(x)))
     if chk.require(len(some) == 1, "C18/application-id-test", "read_card",
-                   "expected one is_some() test of the first application's id, found %d" % len(some), "", f.sp()):
+                   "expected one Some/None test of the first application's id, found %d" % len(some), "", f.sp()):
         sbb, e, tt, ft = some[0]
         for bb, st in sites["Bank"]:
             chk.require(f.edge_dominates((sbb, tt), bb), "C18/bank-needs-application-id", "CardInfo::Bank",
                         "a bank card is reported without an application id", "under application_id.is_some()", f.sp(bb))
         # the tested application is element 0 of the list
         idx = [x for x in walk(e) if x[0] == "call" and x[1].endswith("Index::index")]
-        chk.require(idx and idx[0][2][1] == ("const", 0), "C18/first-application", "read_card",
+        first = (idx and idx[0][2][1] == ("const", 0)) or any(first_of_subs(x) for x in walk(e))
+        chk.require(first, "C18/first-application", "read_card",
                     "the application id is not taken from the first listed application", "subs[0]", f.sp(sbb), nontrivial=False)
         chk.require(f.edge_dominates((tbb, nonempty_t), sbb), "C18/index-guarded", "subs[0]",
                     "subs[0] is evaluated without knowing the list is non-empty (panic)", "guarded by !is_empty", f.sp(sbb))
     for bb, st in sites["MembershipCard"]:
         chk.require(f.edge_dominates((tbb, empty_t), bb), "C18/member-needs-no-application", "CardInfo::MembershipCard",
                     "a membership card is reported although a payment application may be listed", "under subs.is_empty()", f.sp(bb))
-        # payload is the uid variable
-        pay = f.ex.operand(st["rv"]["ops"][0])
-        pay_ok = (pay[0] in ("var", "path") and pay[1] == "uuid") or \
-            (pay[0] == "call" and pay[1] in ("alloc::string::ToString::to_string", "alloc::borrow::ToOwned::to_owned") and
-             any(x[0] in ("var", "path") and x[1] == "uuid" for x in walk(pay)))
-        chk.require(pay_ok, "C18/member-payload",
-                    "CardInfo::MembershipCard", "the membership id is %s, not the processed uid" % show(pay)[:80], "uuid", f.sp(bb),
-                    nontrivial=False)
-    uid_chain(chk, f)
+    uid_paths(chk, f, zvt, sites)
     # abort handling: delegate to the C20 arm rule for this function
     sws = [s for s in variant_switches(f, zvt.adts) if "Abort" in s[2] or "Abort" in s[4]]
     if chk.require(len(sws) == 1, "C18/abort-arm", "read_card", "reply match with Abort arm not found", "", f.sp(), nontrivial=False):
@@ -193,3 +194,114 @@ def uid_chain(chk, f):
     uo = [x for x in walk(pe) if x[0] == "call" and x[1] == "core::option::Option::<T>::unwrap_or"]
     chk.require(uo and any(y[0] in ("var", "path") and y[1] == "uuid" for y in walk(uo[0][2][1])), "C18/strip-fallback", "uuid",
                 "when the prefix is absent the value is not kept", "unwrap_or(&uuid)", f.sp(pbb), nontrivial=False)
+
+
+def uid_paths(chk, f, zvt, sites):
+    """The membership id as a function of the reported uid, decided per control-flow path by symbolic
+    evaluation (pathsym): whatever the spelling (one reassigned variable, shadowed bindings, a helper
+    function, named constants), on every path from the StatusInformation arm to a MembershipCard
+    construction the payload must be
+        U                                         on paths where len(U) <= 14
+        strip_prefix(T, "000000").unwrap_or(T)    on paths where len(U) >= 15,  T = U[len(U) - 14 ..]
+    with U = to_uppercase(tlv.uuid)."""
+    import pathsym as ps
+    arm = None
+    for (bb, enum, targets, else_t, rest, pexpr) in variant_switches(f, zvt.adts):
+        if enum.endswith("ReadCardResponse") and "StatusInformation" in targets:
+            arm = targets["StatusInformation"]
+    if not chk.require(arm is not None, "C18/uid-variable", "read_card", "StatusInformation arm not found", "", f.sp()):
+        return
+    pe = ps.PathEval(f.b)
+    polls = [bb for bb, t in f.b.calls() if callee(t) == NEXT]
+
+    def has_uuid(e):
+        return any(x[0] == "field" and x[2] == "uuid" for x in ps.walk(e))
+
+    def is_upper(e):
+        return e[0] == "call" and e[1] == UPPER and len(e[2]) == 1 and has_uuid(e[2][0])
+
+    def is_len_of(e, u):
+        return (e[0] == "call" and e[1].endswith("::len") and len(e[2]) == 1 and e[2][0] == u) or (e[0] == "len" and e[1] == u)
+
+    def tail_of(e):
+        """(U, K) if e == U[len(U) - K ..]"""
+        if e[0] == "call" and e[1] == "core::ops::index::Index::index" and len(e[2]) == 2 and is_upper(e[2][0]):
+            u, rng = e[2]
+            if rng[0] == "agg" and str(rng[1]).endswith("RangeFrom::RangeFrom") and len(rng[2]) == 1:
+                s = rng[2][0]
+                if s[0] == "bin" and s[1] == "Sub" and is_len_of(s[2], u) and s[3][0] == "const":
+                    return u, s[3][1]
+        return None
+
+    def long_form(e):
+        """(U, K, S) if e == strip_prefix(T, S).unwrap_or(T) with T = U[len(U)-K..]"""
+        if e[0] == "call" and e[1] == "core::option::Option::<T>::unwrap_or" and len(e[2]) == 2:
+            sp, alt = e[2]
+            if sp[0] == "call" and sp[1] == STRIPP and len(sp[2]) == 2 and sp[2][1][0] == "str":
+                t1, t2 = tail_of(sp[2][0]), tail_of(alt)
+                if t1 is not None and t1 == t2:
+                    return t1[0], t1[1], sp[2][1][1]
+        return None
+    n_paths = 0
+    for sbb, st in sites["MembershipCard"]:
+        paths = ps.simple_paths(f.b, arm, sbb, avoid=polls)
+        chk.require(0 < len(paths) < 512, "C18/uid-paths", "read_card", "could not enumerate the paths to the membership-card result (%d)" % len(paths),
+                    "", f.sp(sbb), nontrivial=False)
+        for path in paths:
+            n_paths += 1
+            env, conds = pe.run(path)
+            site_val = env.get(st["p"]["l"])
+            if not (site_val and site_val[0] == "agg" and site_val[2]):
+                chk.fail("C18/member-payload", "CardInfo::MembershipCard", "payload of the membership card not found on a path", f.sp(sbb))
+                continue
+            pay = ps.norm(site_val[2][0])
+            # the length test(s) met on this path, normalised to len >= M / len < M
+            lo, hi = 0, None          # lo <= len <= hi
+            U_seen = None
+            for cbb, ce, taken, listed in conds:
+                c = ps.norm(ce)
+                if c[0] != "bin" or c[1] not in ("Gt", "Ge", "Lt", "Le"):
+                    continue
+                op, a, b = c[1], c[2], c[3]
+                if not (a[0] in ("call", "len") and (is_upper(a[2][0]) if a[0] == "call" and a[2] else False)):
+                    a, b = b, a
+                    op = {"Gt": "Lt", "Ge": "Le", "Lt": "Gt", "Le": "Ge"}[op]
+                if not (a[0] == "call" and a[1].endswith("::len") and a[2] and is_upper(a[2][0]) and b[0] == "const"):
+                    continue
+                U_seen = a[2][0]
+                k = b[1]
+                truth = (taken == "else") if listed == [0] else (taken != 0)
+                # condition true iff ...
+                if op == "Gt":
+                    M = k + 1
+                elif op == "Ge":
+                    M = k
+                elif op == "Lt":
+                    M, truth = k, not truth
+                else:
+                    M, truth = k + 1, not truth
+                if truth:
+                    lo = max(lo, M)
+                else:
+                    hi = M - 1 if hi is None else min(hi, M - 1)
+            inst = "path " + "-".join(str(x) for x in path[:3]) + ".." + str(path[-1])
+            if lo >= KEEP + 1:
+                lf = long_form(pay)
+                chk.require(lf is not None and lf[1] == KEEP and lf[2] == STRIP and (U_seen is None or lf[0] == U_seen),
+                            "C18/uid-long", inst,
+                            "for a uid longer than %d digits the membership id is %s; specification: the last %d digits of the "
+                            "upper-cased uid with a leading %r dropped" % (KEEP, ps.show(pay)[:160], KEEP, STRIP),
+                            "strip_prefix(U[len-14..], \"000000\").unwrap_or(..)", f.sp(sbb))
+            elif hi is not None and hi <= KEEP:
+                chk.require(is_upper(pay), "C18/uid-short", inst,
+                            "for a uid of at most %d digits the membership id is %s; specification: the upper-cased uid unchanged"
+                            % (KEEP, ps.show(pay)[:160]), "to_uppercase(tlv.uuid)", f.sp(sbb))
+            else:
+                chk.fail("C18/length-constant", inst,
+                         "the path to the membership id does not separate uids of more than %d digits from shorter ones "
+                         "(len range on this path: %s..%s); payload %s" % (KEEP, lo, hi, ps.show(pay)[:120]), f.sp(sbb))
+            src_ok = any(x[0] == "field" and x[2] == "uuid" and any(y[0] == "field" and y[2] == "tlv" for y in ps.walk(x))
+                         for x in ps.walk(pay))
+            chk.require(src_ok, "C18/uid-source", inst, "the membership id does not derive from tlv.uuid of the status information: %s"
+                        % ps.show(pay)[:120], "tlv.uuid", f.sp(sbb), nontrivial=False)
+    chk.floor("membership-id paths evaluated", n_paths, 2)
